@@ -34,7 +34,7 @@ OBLIGATIONS = [
     {"id": "C03_T7", "theorem": "Iora.C03.T7_late_receive", "kind": "proved",
      "statement": "without a tombstone GC pass, a receive entered after the close on a drained session answers PeerClosed at once"},
     {"id": "C03_skel", "theorem": "Iora.C03.skeleton_conforms", "kind": "proved",
-     "statement": "the regenerated lock/notify skeleton has the facts the model is instantiated from (decide)"},
+     "statement": "the regenerated lock/notify skeleton has the facts the model is instantiated from: notify after write under the lock, mode read + append under one lock, callback unlocked, hasData computed from the buffer, drain keyed on the buffer, the flush switches to Async only in a section that found the buffer empty (decide)"},
 ]
 
 SIZES = [0, 1, 2, 3, 5, 10, 16, 64, 1000, 65535, 65536, 70000, 1048576]
@@ -47,7 +47,7 @@ def payload(sid, pos, n):
 
 # ------------------------------------------------------------------ single-threaded cases
 def gen_seq_case(rng, big):
-    wild = rng.chance(1, 10)          # 1 case in 10 also breaks the environment contract (data/close after close, empty chunks)
+    wild = rng.chance(1, 10)          # 1 case in 10 also breaks the environment contract (data/close after a close)
     maxbuf = rng.choice([0, 1, 2, 5, 10, 16, 16, 64, 64, 64, 1000, 1000, 1000] + ([65536, 70000, 1048576, 1048576] if big else []))
     gc = rng.choice([1024, 1024, 1024, 1024, 0, 1, 2])
     allow = 0 if rng.chance(1, 30) else 1
@@ -78,10 +78,10 @@ def gen_seq_case(rng, big):
                 ln = rng.choice([room + 1, room + 2, maxbuf + 1, max(maxbuf, 1), rng.range(1, maxbuf + 2)])             # boundary / overflow
             if big and rng.chance(1, 4):
                 ln = rng.choice([65535, 65536, 70000, max(maxbuf, 1), maxbuf + 1, max(room, 1)])
-            if wild and rng.chance(1, 6):
-                ln = 0
+            if rng.chance(1, 14):
+                ln = 0                     # zero-length chunk: legal input (UdpEngine delivers empty datagrams)
             ln = min(ln, 70001)
-            if s in dead or ln == 0:
+            if s in dead:
                 disciplined = False
             ops.append("data %d %s" % (s, hexs(payload(s, pos[s], ln))))
             pos[s] += ln
@@ -178,6 +178,9 @@ def seq_monitor(c, impl):
                     bad.append("T2: PeerClosed reported before every byte that arrived was returned: returned %d of %d bytes"
                                % (len(out[sid]), len(arrived[sid])))
                 eof.add(sid)
+            elif r == "err:ShuttingDown":
+                if not fence:
+                    bad.append("T1: receive answered ShuttingDown on a live session although no teardown began (after `%s`)" % op[:40])
             elif r == "err:Timeout":
                 if sid in ovf_seen and not fence and sid not in skip and c["gc"] >= 16:   # a GC pass may reclaim a closed, drained, overflowed tombstone
                     bad.append("T5: a receive after BufferOverflow answered Timeout (overflow not sticky)")
@@ -220,7 +223,19 @@ def seq_monitor(c, impl):
 
 # ------------------------------------------------------------------ DetSched programs
 def gen_sched_case(rng, idx):
-    kind = rng.choice(["parked", "midflush", "mixed", "mixed", "two-sessions", "close-race", "fence"])
+    kind = rng.choice(["parked", "midflush", "mixed", "mixed", "two-sessions", "close-race", "fence", "flush-window", "flush-window", "flush-window"])
+    if kind == "flush-window":
+        # arrivals racing the window between the flusher's unlock and the end of its data callback (the harness callback yields
+        # at entry and exit): every chunk must stay behind the flushed bytes
+        n = rng.range(4, 8)
+        io = []
+        for k in range(n):
+            if rng.chance(1, 3):
+                io.append("y")
+            io.append("d:1:%s" % hexs(payload(1, k, 1)))
+        app = ["m:1:s"] + ["y"] * rng.range(0, 2) + ["m:1:a"]
+        return {"cat": "sched-flush-window", "seed": rng.below(2 ** 31), "timeoutOneIn": 0, "spuriousOneIn": 0, "maxbuf": 1000, "io": io,
+                "apps": [app], "sids": [1], "total": {1: n}, "uses_disabled": False, "overflow_possible": False, "fence": False, "ends_async": True}
     maxbuf = rng.choice([4, 8, 16, 64, 1000])
     nsess = 2 if kind == "two-sessions" else 1
     sids = [1, 2][:nsess]
@@ -233,6 +248,8 @@ def gen_sched_case(rng, idx):
         nchunks = rng.range(1, 5)
         for _ in range(nchunks):
             ln = rng.choice([1, 2, 3, 4, rng.range(1, 6)])
+            if rng.chance(1, 8):
+                ln = 0                     # zero-length chunk (legal)
             io.append("d:%d:%s" % (s, hexs(payload(s, pos, ln))))
             pos += ln
         total[s] = pos
@@ -336,6 +353,8 @@ def sched_monitor(c, res):
                 s2 = int(p[1])
                 if p[2] == "ok":
                     out[s2].extend(unhex(p[3]))
+                elif p[3] == "ShuttingDown" and not c["fence"]:
+                    bad.append("T1: receive answered ShuttingDown on a live session although no teardown began")
                 elif p[3] == "PeerClosed":
                     if s2 not in closed:
                         bad.append("T2: PeerClosed reported before the engine closed session %d" % s2)
@@ -490,7 +509,7 @@ def run(ctx: Ctx):
                                               "detail": "first differing op index %d" % i},
                                    "ops": c["ops"], "observed": impl, "expected_by_model": model}, found_input=False)
         r2 = rng.fork("sched")
-        scases = [c for c in corpus if c.get("cat") == "sched"] + [gen_sched_case(r2, i) for i in range(400 * scale)]
+        scases = [c for c in corpus if c.get("cat") == "sched"] + [gen_sched_case(r2, i) for i in range(500 * scale)]
         run_sched(ctx, hb, scases, dist)
     ctx.extra["input_distribution"] = dist
     ctx.extra["repo_tree_sha"] = ctx.repo_tree_sha(ANCHOR_FILES)
@@ -501,8 +520,7 @@ def run(ctx: Ctx):
         "teardown interplay (fence) is part of the model but the stream theorems about drops under the fence are C05's",
     ]
     ctx.assumptions += [
-        "engine contract (C02): no data and no second close for a closed session id; chunks are non-empty (an EMPTY chunk in Sync mode sets "
-        "hasData with no data and makes the next receive answer ShuttingDown - observed, modelled, outside the stream property)",
+        "engine contract (C02): no data and no second close for a closed session id (zero-length chunks are legal arrivals and are generated)",
         "a data callback is registered (the flush and the Async path silently discard bytes when none is set)",
         "tombstone GC (syncBufferGcThreshold) may erase a drained tombstone: a later receive on that id then waits for its timeout (T7 is stated without a GC pass)",
         "setReadMode(Async) after an overflow resumes callback delivery past the gap without any report (the overflow is reported to synchronous readers only)",
